@@ -11,14 +11,21 @@ for x in f:
     rows.append("| %s | %s | %s | %s | %s | %s |" % (x["id"], x["property"], x["status"], x.get("commit", ""), esc(summ), cl))
 findings = "\n".join(rows)
 rows = ["| seeded change | file | clause of the property it breaks (author's words) | what it needs to manifest | rejected clauses reported by the check |", "|---|---|---|---|---|"]
+brows = ["| benign change | file | what differs observably, and why the property still holds (author's words) | check |", "|---|---|---|---|"]
 for d in sorted(glob.glob(V + "/seeded/C*")):
     m = json.load(open(d + "/meta.json"))
+    if m.get("kind") == "benign":
+        brows.append("| %s | %s | %s | %s |" % (os.path.basename(d), (m.get("files_changed") or [""])[0].replace("mingus/", ""), esc(m.get("needs_to_manifest", ""))[:330],
+                                            "quiet (exit 0)" if m.get("quiet") else "ALARM"))
+        continue
+    via = "" if m.get("checked_with", m["property"]) == m["property"] else " (by the %s check)" % m["checked_with"]
     rows.append("| %s | %s | %s | %s | %s |" % (os.path.basename(d), (m.get("files_changed") or [""])[0].replace("mingus/", ""), esc(m.get("clause_broken", ""))[:160],
-                                         esc(m.get("needs_to_manifest", ""))[:200], ", ".join(sorted(m.get("rejected_clauses", {}).keys()))))
+                                         esc(m.get("needs_to_manifest", ""))[:200], ", ".join(sorted(m.get("rejected_clauses", {}).keys())) + via))
 seeded = "\n".join(rows)
 p = V + "/DESIGN.md"
 s = open(p).read()
-for name, body in (("findings", findings), ("seeded", seeded)):
+benign = "\n".join(brows)
+for name, body in (("findings", findings), ("seeded", seeded), ("benign", benign)):
     s = re.sub(r"(<!-- AUTOGEN:%s -->\n).*?(<!-- /AUTOGEN -->)" % name, lambda m: m.group(1) + body + "\n" + m.group(2), s, flags=re.S)
 open(p, "w").write(s)
 print("DESIGN.md tables regenerated")
